@@ -3,6 +3,7 @@ import S2T.Gen.Units
 import S2T.Props.C03_Bound
 import S2T.Props.C03_Src
 import S2T.Props.C03_Carrier
+import S2T.Props.C03_Walk
 /-!
 # C03 — Units mirror pages / slides / sheets / chapters / messages
 
